@@ -259,6 +259,25 @@ pub async fn scenario(w: World, h: Hist, trace: bool) -> Outcome {
                         });
                         break 'ops;
                     }
+                    if rel < 0 && !visible {
+                        // the ignored sample must not change the instance's state either (rebirth)
+                        if let (Some(b), Some(a)) = (state_before, state_now) {
+                            if b.0 != a.0 {
+                                let strongest = others.iter().cloned().max_by_key(|v| st(*v)).unwrap();
+                                out.findings.push(Found {
+                                    sig: "weaker_state_change_visible|change=write".to_string(),
+                                    what: format!(
+                                        "instance k{key}: the sample w{wi}#{seq} of the weaker writer (strength {sw}) is not presented, but it changed the instance_state the reader presents ({} -> {}) although w{strongest} (strength {}) owns the instance",
+                                        b.0.name(),
+                                        a.0.name(),
+                                        st(strongest)
+                                    ),
+                                    op_index: oi,
+                                });
+                                break 'ops;
+                            }
+                        }
+                    }
                     if rel == 0 {
                         let equals: Vec<usize> = others.iter().cloned().filter(|v| st(*v) == sw).collect();
                         if equals.len() == 1 {
